@@ -31,7 +31,10 @@ def run_overlay_test(repo, pkg_rel, test_src, run="TestVerifReplay", tags="verif
         open(src, "w").write(test_src)
         ov = os.path.join(tmp, "overlay.json")
         json.dump({"Replace": {os.path.join(repo, pkg_rel, "zz_verif_replay_test.go"): src}}, open(ov, "w"))
-        cmd = ["go", "test"] + (["-race"] if race else []) + ["-overlay", ov, "-tags", tags, "-vet=off", "-count=1", "-timeout", "60s", "-run", "^%s$" % run, "./" + pkg_rel]
+        # the module files are copied so that -mod=mod can never rewrite /repo/go.mod or go.sum
+        for f in ("go.mod", "go.sum"):
+            shutil.copy(os.path.join(repo, f), os.path.join(tmp, f))
+        cmd = ["go", "test", "-modfile", os.path.join(tmp, "go.mod")] + (["-race"] if race else []) + ["-overlay", ov, "-tags", tags, "-vet=off", "-count=1", "-timeout", "60s", "-run", "^%s$" % run, "./" + pkg_rel]
         try:
             p = subprocess.run(cmd, cwd=repo, env=ENV, capture_output=True, text=True, timeout=timeout)
             out = p.stdout + p.stderr
